@@ -10,6 +10,8 @@
     * discarded_counter_exact — the discarded-records counter is the number of discards (mod 2^32);
     * discard_only_if — a record is refused only if it cannot fit an empty packet (the test against
       `packet_size - off_content`) or the back end answered "full" during the call.
+    * records_laid_out_in_order — (one buffer size) every serialised record begins at or after the end of the
+      previous record of its packet, or of the packet context, and ends inside the packet: no overlap, call order;
   What is NOT proved here and is carried by the correspondence + decoding oracle instead (named
   `records_exactly_once` in DESIGN.md): that decoding the delivered packet bytes with the metadata
   returns those records in call order, without overlap, inside the packet content.  That needs the
@@ -38,6 +40,24 @@ theorem calls_recorded_or_discarded_always (cfg : Cfg) (d : DST) (L A : Nat) (hc
   calls_recorded_or_discarded cfg d ops L p
     (runOps_pinv cfg d L A p.openArgs hcfg hsmall hhdr ops hops (rtInit L p)
       (rtInit_pinv d L A hcfg.Apos hsmall p hsb)).nh
+
+/-- **records are laid out one after the other, inside the packet** (platforms with one buffer size; hypotheses as in
+    `no_store_outside_the_buffer`, Props/C02.lean): along every history, every record that a tracing call serialises
+    (`recDone name a b`: bits `[a, b)` of the current packet) begins at or after the end of everything its packet held
+    before it — the previous record of that packet, or the packet header and context when it is the first (`hw` of the
+    older part of the log) — and ends inside the packet.  So the records of a packet never overlap each other nor the
+    packet header/context, and their order in the packet is the order of the calls. -/
+theorem records_laid_out_in_order (cfg : Cfg) (d : DST) (L A : Nat) (hcfg : CfgOK A cfg d)
+    (hsmall : 8 * L + A ≤ 2 ^ 32) (p : Plat) (hsb : ∀ x ∈ p.setBufs, x.2 = L)
+    (hhdr : ∀ args ∈ openArgsOf p.openArgs, hdrEndN cfg d args ≤ 8 * L)
+    (ops : List Op) (hops : OpsSmall d L A ops)
+    (pre : List Ev) (n : String) (a b : Nat) (rest : List Ev)
+    (hlog : (runOps cfg d ops (rtInit L p)).log = pre ++ Ev.recDone n a b :: rest) :
+    hw rest ≤ a ∧ a ≤ b ∧ b ≤ 8 * L := by
+  have h := (runOps_pinv cfg d L A p.openArgs hcfg hsmall hhdr ops hops (rtInit L p)
+    (rtInit_pinv d L A hcfg.Apos hsmall p hsb)).chain
+  rw [hlog] at h
+  exact ChainOK.record pre n a b rest h
 
 theorem discarded_counter_exact (cfg : Cfg) (d : DST) (ops : List Op) (bytes : Nat) (p : Plat) :
     (runOps cfg d ops (rtInit bytes p)).c.eventsDiscarded =
@@ -70,11 +90,16 @@ def exRun3 : St :=
   runOps exCfg3 exDst3 [.open_, .trace "e" [("p_x", [.num 7])], .trace "e" [("p_x", [.num 8])],
     .trace "e" [("p_x", [.num 9])], .trace "e" [("p_x", [.num 10])]] (rtInit 8 { fullAnswers := [true] })
 
+/-- the three kept records of the example occupy bits [48,56), [56,64) of the first packet and [48,56) of the second -/
+example : hw exRun3.log = 56 ∧ (exRun3.log.filterMap fun e => match e with | .recDone _ a b => some (a, b) | _ => none) =
+    [(48, 56), (56, 64), (48, 56)] := by decide +kernel
+
 example : exRun3.halted = false ∧ nCall exRun3.log = 4 ∧ nRec exRun3.log = 3 ∧ nDisc exRun3.log = 1 ∧
     exRun3.c.eventsDiscarded = 1 := by decide +kernel
 
 #print axioms calls_recorded_or_discarded
 #print axioms calls_recorded_or_discarded_always
+#print axioms records_laid_out_in_order
 #print axioms discarded_counter_exact
 #print axioms discard_only_if
 #print axioms one_call_one_outcome
